@@ -526,8 +526,10 @@ def _get_sort_aux(node):  # noqa: C901
             return get_sort(node[2])
         if ident == 'fp':
             ew = get_bv_width(node[2])
-            sw = 1 + get_bv_width(node[3])
-            return Node('_', 'FloatingPoint', ew, sw)
+            sw = get_bv_width(node[3])
+            if ew == -1 or sw == -1:
+                return None
+            return Node('_', 'FloatingPoint', ew, sw + 1)
         if ident == 'select':
             asort = get_sort(node[1])
             if is_array_sort(asort):
@@ -694,12 +696,18 @@ def get_bv_width(node):  # noqa: C901
         return -1
     if is_indexed_operator_app(node, 'zero_extend') \
        or is_indexed_operator_app(node, 'sign_extend'):
-        return get_indices(node[0], node[0][1])[0] + get_bv_width(node[1])
+        bw = get_bv_width(node[1])
+        if bw == -1:
+            return -1
+        return get_indices(node[0], node[0][1])[0] + bw
     if is_indexed_operator_app(node, 'extract', 2):
         idx = get_indices(node[0], 'extract', 2)
         return idx[0] - idx[1] + 1
     if is_indexed_operator_app(node, 'repeat'):
-        return get_indices(node[0], 'repeat')[0] * get_bv_width(node[1])
+        bw = get_bv_width(node[1])
+        if bw == -1:
+            return -1
+        return get_indices(node[0], 'repeat')[0] * bw
     if is_indexed_operator_app(node, 'rotate_left') \
        or is_indexed_operator_app(node, 'rotate_right'):
         return get_bv_width(node[1])
@@ -731,7 +739,10 @@ def get_bv_width(node):  # noqa: C901
         ]:
             return get_bv_width(node[1])
         if ident == 'concat':
-            return sum(map(get_bv_width, node[1:]))
+            widths = list(map(get_bv_width, node[1:]))
+            if -1 in widths:
+                return -1
+            return sum(widths)
         if ident == 'bvcomp':
             return 1
         if ident == 'ite':
